@@ -89,10 +89,19 @@ int yaml_parser_parse(yaml_parser_t *parser, yaml_event_t *event) {
 	verif_yaml_open_events++;
 	return 1;
 #else
+#ifdef VERIF_YAML_SHAPE
+	/* shape mode: the event TYPES are a concrete list supplied by the query (one query per well-nested type sequence up
+	 * to the stated length, enumerated by queries/C13.py); scalar contents stay symbolic; after the list: syntax error */
+	extern const unsigned char verif_yaml_shape[];
+	extern const int verif_yaml_shape_n;
+	if (verif_yaml_pos >= verif_yaml_shape_n) return 0;
+	uint8_t t = verif_yaml_shape[verif_yaml_pos];
+#else
 	if (verif_yaml_pos >= VERIF_YAML_K) return 0;
 	if (ND_bool("yaml_error")) { verif_yaml_pos = VERIF_YAML_K; return 0; }
 	uint8_t t = ND_u8("yaml_type");
 	__CPROVER_assume(t >= YAML_STREAM_START_EVENT && t <= YAML_MAPPING_END_EVENT);
+#endif
 	if (t == YAML_SEQUENCE_START_EVENT || t == YAML_MAPPING_START_EVENT) {
 		__CPROVER_assume(depth < 7);
 		kind[depth++] = t == YAML_SEQUENCE_START_EVENT ? 1 : 2;
